@@ -10,43 +10,41 @@ FILE_OPS = ["ModifyLabels", "AddRule", "DeleteRule", "AddFile", "DeleteFile", "R
 DUP_OPS = ["ModifyLabels", "AddRule", "DeleteRule", "SwapRules"]
 
 
-def gen_cases(ctx):
+def gen_jobs(ctx):
+    """GEN runs: (cfg name, cfg text, replay budget, tlc kwargs)."""
     th = ctx.thorough
-    cases, stats, parts = [], [], []
-
-    def add(name, text, budget, **kw):
-        cs, r = gh.gen(ctx, name, text, **kw)
-        d = gh.dedupe(cs)
-        pick = gh.stratify(d, budget, ctx.seed)
-        parts.extend(pick)
-        stats.append({"cfg": name, "emitted": len(cs), "distinct": len(d), "replayed": len(pick),
-                      "states": r["distinct"], "generated": r["generated"]})
-
-    # (1) exhaustive: every history of one file whose rules share one name (the F5 neighbourhood)
-    add("c03_gen_dup.cfg", gh.cfg("EmitCase", npaths=1, names=["n1"], bodies=["v1"], labs=["l1", "l2", "l3"],
-                                   maxrules=3, maxfork=2, commits=2, ops=DUP_OPS), 400 if not th else 2000)
-    # (2) exhaustive: every file-level history over two paths (add / delete / re-add / rename / rename back / revert)
-    add("c03_gen_files.cfg", gh.cfg("EmitCase", npaths=2, names=["n1"], bodies=["v1"], labs=["l1", "l2"],
-                                     maxrules=2, maxfork=2, commits=2 if not th else 3, ops=FILE_OPS),
-        400 if not th else 5000)
-    # (3) simulation over the wide vocabulary: random prefixes, every successor of every visited history
-    wide = dict(npaths=3 if th else 2, kinds=["rec", "alr"], names=["n1", "n2"], bodies=["v1", "v2"], labs=["l1", "l2"],
+    wide = dict(npaths=4 if th else 3, kinds=["rec", "alr"], names=["n1", "n2"], bodies=["v1", "v2"], labs=["l1", "l2", "l3"],
                 cmts=["none", "c1"], pads=[0, 1, 2], maxrules=3, maxfork=3, commits=4 if not th else 5, baseadv=1, forkfdis=True)
-    add("c03_sim_wide.cfg", gh.cfg("EmitCase", **wide), 500 if not th else 8000,
-        simulate=10 if not th else 60, depth=12 if not th else 14, workers=1)
-    return gh.dedupe(parts), stats
+    return [
+        # (1) exhaustive: every history of one file whose rules share one name (the F5 neighbourhood)
+        ("c03_gen_dup.cfg", gh.cfg("EmitCase", npaths=1, names=["n1"], bodies=["v1"], labs=["l1", "l2", "l3"],
+                                    maxrules=3, maxfork=2, commits=2, ops=DUP_OPS), 300 if not th else 2000, dict(workers=2)),
+        # (2) exhaustive: every file-level history over two paths (add / delete / re-add / rename / rename back / revert)
+        ("c03_gen_files.cfg", gh.cfg("EmitCase", npaths=2, names=["n1"], bodies=["v1"], labs=["l1", "l2"],
+                                      maxrules=2, maxfork=2, commits=2 if not th else 3, ops=FILE_OPS),
+         300 if not th else 5000, dict(workers=2 if not th else 4)),
+        # (3) exhaustive: files entering the linted set from an excluded directory, label removal (l3 -> l1)
+        ("c03_gen_excl.cfg", gh.cfg("EmitCase", npaths=4, names=["n1"], bodies=["v1"], labs=["l1", "l3"], maxrules=1,
+                                     maxfork=2, commits=2, ops=["RenameFile", "ModifyLabels", "DeleteFile", "RevertLast"]),
+         200 if not th else 3000, dict(workers=2)),
+        # (4) simulation over the wide vocabulary: random prefixes, every successor of every visited history
+        ("c03_sim_wide.cfg", gh.cfg("EmitCase", **wide), 500 if not th else 8000,
+         dict(simulate=10 if not th else 60, depth=12 if not th else 14, workers=1)),
+    ]
 
 
-def mc_runs(ctx, mode):
+def mc_jobs(ctx, mode):
     """MC: the impl-shaped fold + matcher + merge against the documented classification, exhaustively."""
     th = ctx.thorough
     inv = "Inv_C03" if mode == "twopass" else "Inv_C03_known"
-    w = 6 if not th else 12
+    w = 3 if not th else 5
     runs = [
         ("c03_mc_dup.cfg", dict(npaths=1, names=["n1", "n2"], bodies=["v1"], labs=["l1", "l2"], maxrules=3, maxfork=2,
                                 commits=2 if not th else 3, ops=DUP_OPS + ["RenameRule"])),
         ("c03_mc_files.cfg", dict(npaths=2, names=["n1"], bodies=["v1"], labs=["l1", "l2"], maxrules=2, maxfork=2,
                                   commits=3 if not th else 4, ops=FILE_OPS)),
+        ("c03_mc_excl.cfg", dict(npaths=4, names=["n1"], bodies=["v1"], labs=["l1", "l3"], maxrules=1, maxfork=2,
+                                 commits=2 if not th else 3, ops=["RenameFile", "ModifyLabels", "DeleteFile", "RevertLast", "AddFile"])),
     ]
     if th:
         runs.append(("c03_mc_fields.cfg", dict(npaths=2, kinds=["rec", "alr"], names=["n1", "n2"], bodies=["v1", "v2"],
@@ -54,18 +52,33 @@ def mc_runs(ctx, mode):
                                                forkfdis=True,
                                                ops=["ModifyExpr", "RenameRule", "ChangeKind", "CommentOnlyEdit", "WhitespaceEdit",
                                                     "FileDisableEdit", "DeleteRule", "RenameFile", "DeleteFile", "RevertLast"])))
-    out = []
-    for name, kw in runs:
-        out.append(ctx.tlc("GitHistory", name, files={name: gh.cfg(inv, view=True, mode=mode, **kw)},
-                           allow_violation=True, timeout=3000, workers=w, heap="6g" if th else "4g"))
-    return out
+    return [(name, gh.cfg(inv, view=True, mode=mode, **kw), w) for name, kw in runs]
+
+
+def model_and_cases(ctx, mode):
+    """Runs the GEN and MC TLC jobs side by side; returns (cases, gen stats, mc results)."""
+    ctx._spec_copy()
+    gj, mj = gen_jobs(ctx), mc_jobs(ctx, mode)
+    jobs = [(lambda j=j: gh.gen(ctx, j[0], j[1], **j[3])) for j in gj]
+    jobs += [(lambda j=j: ctx.tlc("GitHistory", j[0], files={j[0]: j[1]}, allow_violation=True, timeout=3000,
+                                  workers=j[2], heap="4g")) for j in mj]
+    res = gh.run_parallel(jobs)
+    parts, stats = [], []
+    for j, (cs, r) in zip(gj, res[:len(gj)]):
+        d = gh.dedupe(cs)
+        pick = gh.stratify(d, j[2], ctx.seed)
+        parts.extend(pick)
+        stats.append({"cfg": j[0], "emitted": len(cs), "distinct": len(d), "replayed": len(pick),
+                      "states": r["distinct"], "generated": r["generated"]})
+    return gh.dedupe(parts), stats, res[len(gj):]
 
 
 def run(ctx, cases_override=None):
+    mode0 = gh.probe_mode(ctx)
     if cases_override is None:
-        cases, gstats = gen_cases(ctx)
+        cases, gstats, mc_stats = model_and_cases(ctx, mode0)
     else:
-        cases, gstats = cases_override, []
+        cases, gstats, mc_stats = cases_override, [], []
     if not cases:
         raise MachineryError("GEN produced no cases")
     tpath, trace = gh.execute(ctx, cases, "c03")
@@ -73,16 +86,35 @@ def run(ctx, cases_override=None):
     tags = {}
     for t, v in out:
         tags.setdefault(t, []).append(v)
-    for bad in ("GITDRIFT", "UNMAPPED", "FAILED", "OTHER"):
+    viols = []
+    import re
+    for cid, f in tags.pop("FAILED", []):
+        # pint itself gave up on a valid history (reproducibly, see exec-githist): nothing was classified.
+        # Anything that does not carry pint's own error message stays a machinery failure.
+        m = re.search(r'level=ERROR msg="Execution completed with error\(s\)" err="([^"]*)"', f["stderr"]) or \
+            re.search(r"(panic: [^\n]*)", f["stderr"])
+        if not m:
+            raise MachineryError("pint produced no report in case %s: %s\ncase: %s" % (cid, json.dumps(f)[:1500], json.dumps(cases[cid - 1])[:3000]))
+        msg = re.sub(r"[A-Za-z0-9_/.-]+\.yml", "<file>", m.group(1))
+        viols.append({"sig": "C03:failed:" + msg[:120],
+                      "what": "pint ci fails on a valid history (ops %s) and classifies nothing: %s" % (",".join(f["ops"]), m.group(1)[:300]),
+                      "case": cases[cid - 1], "detail": f})
+    for bad in ("GITDRIFT", "LAYOUTDRIFT", "OTHER"):
         if tags.get(bad):
             cid = tags[bad][0][0]
             raise MachineryError("%s in case %s: %s\ncase: %s" % (bad, cid, json.dumps(tags[bad][0][1:])[:1500],
                                                                  json.dumps(cases[cid - 1])[:3000]))
-    viols = []
     for cid, prop, v in tags.get("VIOL", []):
         if prop != "C03":
             continue
         s = v["sig"]
+        if "phantom" in v:
+            m = v["phantom"]
+            viols.append({"sig": "C03:phantom:obs=%s:greedy=%s:idfirst=%s" % (m["state"], gh.states(v["greedy"]), gh.states(v["idfirst"])),
+                          "what": "pint lints %s:%d-%d as %s (ops %s) but no rule is there at HEAD" % (
+                              m["path"], m["first"], m["last"], m["state"], ",".join(v["ops"])),
+                          "case": cases[cid - 1], "detail": v})
+            continue
         viols.append({"sig": gh.c03_sig(v),
                       "what": "rule %d of %s (ops %s): pint marks it %s, the direct comparison of fork-point and HEAD versions accepts %s" % (
                           s["k"], s["path"], ",".join(v["ops"]), gh.states(s["obs"]), gh.states(s["acc"])),
@@ -90,17 +122,15 @@ def run(ctx, cases_override=None):
     modes = tags.get("MODE", [])
     n_g = sum(1 for m in modes if m[1] == 1)
     n_t = sum(1 for m in modes if m[2] == 1)
-    mode = "twopass" if n_t == len(modes) and n_g < len(modes) else "greedy"
+    mode = mode0
     drift = []
     for m in modes:
         if (m[1] if mode == "greedy" else m[2]) != 1:
             drift.append("case %s: markers differ from the %s transcription of matchEntries (ops %s)" % (
                 m[0], mode, ",".join(o["op"] for o in cases[m[0] - 1]["log"])))
-    # ---- MC with the matcher variant the tree under test was bound to
-    mc_stats = []
+    # ---- MC ran with the matcher variant the probe bound the tree under test to
     leads = []
     if cases_override is None:
-        mc_stats = mc_runs(ctx, mode)
         leads = [m["invariant_violated"] for m in mc_stats if m["invariant_violated"]]
         if leads and not viols:
             raise MachineryError("model-level counterexample (%s) not reproduced on the real code: spec bug" % leads)
